@@ -222,13 +222,18 @@ def _short(case, limit=600):
 
 # --------------------------------------------------------------------- known findings
 def load_known(pid):
-    path = os.path.join(VERIF, 'known_findings.json')
-    if not os.path.exists(path):
-        return {}
-    with open(path) as f:
-        data = json.load(f)
-    return {e['sig']: e for e in data.get('findings', [])
-            if e.get('property') == pid and e.get('status') == 'open'}
+    """Open known findings of this property: known_findings.json (+ known_findings.d/<ID>.json drafts)."""
+    out = {}
+    for path in (os.path.join(VERIF, 'known_findings.json'),
+                 os.path.join(VERIF, 'known_findings.d', pid + '.json')):
+        if not os.path.exists(path):
+            continue
+        with open(path) as f:
+            data = json.load(f)
+        for e in data.get('findings', []):
+            if e.get('property') == pid and e.get('status') == 'open':
+                out[e['sig']] = e
+    return out
 
 
 def finish(ctx):
